@@ -1,0 +1,19 @@
+//go:build verif
+
+package file
+
+// Verification hooks (build tag verif).
+
+// VerifReload performs exactly what the autorefresh watcher does on a file event.
+func VerifReload(v6 bool, filename string) error { return loadFromFile(v6, filename) }
+
+// VerifTable returns a copy of the table currently being served.
+func VerifTable() map[string]string {
+	recLock.RLock()
+	defer recLock.RUnlock()
+	out := make(map[string]string, len(StaticRecords))
+	for k, v := range StaticRecords {
+		out[k] = v.String()
+	}
+	return out
+}
